@@ -20,6 +20,7 @@ def opOfJson (j : Json) : R Op := do
   | "clearSubs" => return .clearSubs
   | "clearRegions" => return .clearRegions
   | "createRegions" => return .createRegions
+  | "createRegionsWith" => return .createRegionsWith (← natsOfJson (← idx j 1)) (← natsOfJson (← idx j 2))
   | t => throw s!"C06: unknown op {t}"
 
 def optNat : Option Nat → Json
@@ -30,7 +31,8 @@ def optNat : Option Nat → Json
 def protoParent (s : State) (f : Feat) : Json :=
   match s.parentOf f.id with
   | none => Json.null
-  | some c => if s.cands.any (·.id == c) then toJson c else toJson (-1 : Int)
+  | some c => if s.cands.any (·.id == c) then toJson c
+              else if s.pool.any (·.id == c) then toJson (-2 : Int) else toJson (-1 : Int)
 
 /-- parent of a candidate / subregion: the number of a region of the record, null, or -1 (stale) -/
 def areaParent (s : State) (f : Feat) : Json :=
@@ -46,6 +48,12 @@ def dump (s : State) : Json :=
     ("cands", jArr (s.cands.map fun f => jArr [toJson f.id, optNat (numberOf s.numC f), locToJson f.loc, areaParent s f, toJson f.kids])),
     ("subs", jArr (s.subs.map fun f => jArr [toJson f.id, optNat (numberOf s.numS f), locToJson f.loc, areaParent s f])),
     ("regions", jArr (s.regions.map fun f => jArr [optNat (numberOf s.numR f), locToJson f.loc, toJson f.kids, toJson f.subs, toJson f.cdses])),
+    ("held", jArr ((List.range s.nextId).map fun k => jArr [toJson k,
+        match s.parentOf k with
+        | none => Json.null
+        | some p => if parentAlive s k then toJson (1 : Int)
+                    else if s.pool.any (fun c => c.id == p && c.kids.contains k) then toJson (2 : Int)
+                    else toJson (-1 : Int)])),
     ("cds", jArr ((List.range s.cds.length).map fun i => match s.regionOfCds i with
         | none => Json.null
         | some r => match posOf s.regions r with
@@ -105,6 +113,7 @@ def opScope (L : Int) (circ : Bool) : Op → Bool
     (`exist` = regions exist before the op) -/
 def expectAfter (e : Bool) (exist : Bool) : Op → Bool
   | .createRegions => !exist
+  | .createRegionsWith _ _ => false
   | .clearProtos | .clearCands | .clearSubs => if exist then true else e
   | .clearRegions => false
   | .addRegion _ _ => false
